@@ -1141,7 +1141,11 @@ def c12(ctx):
     # backlog, a rejected close in front of a valid one, ...)
     must += [["open", "backend-send", "backend-send", "backend-close", "data-valid", "poll-valid", "poll-valid"],
              ["close-unknown", "open", "close-valid", "poll-unknown"], ["close-closed", "open", "data-valid", "close-valid"],
-             ["poll-unknown", "open", "backend-send", "poll-valid", "close-valid"], ["data-unknown", "open", "data-valid", "backend-send", "poll-valid"]]
+             ["poll-unknown", "open", "backend-send", "poll-valid", "close-valid"], ["data-unknown", "open", "data-valid", "backend-send", "poll-valid"],
+             # boundary: more messages pending for one poll than the connection's buffer holds (10) - ten, eleven, twelve
+             ["open"] + ["backend-send"] * 10 + ["poll-valid", "backend-send", "poll-valid", "close-valid"],
+             ["open"] + ["backend-send"] * 11 + ["poll-valid", "poll-valid", "close-valid"],
+             ["open"] + ["backend-send"] * 12 + ["poll-valid", "poll-valid", "backend-close", "poll-valid"]]
     hist = [["open"] + h for h in cases.get("histseqs", [])]
     seqs = must + rnd.sample(cases["seqs"], 2500 if thorough else 150) + rnd.sample(hist, min(len(hist), 1500 if thorough else 90))
     ctx.extra["sequences_enumerated_by_tlc"] = len(cases["seqs"]) + len(hist)
